@@ -1,12 +1,14 @@
 (* C07: parsing source code is faithful to Python's own view of it.  Statements only; the lemmas live in
-   proofs/MergeFacts.v, proofs/ParseSigFacts.v, proofs/C07Facts.v.
-   The full statement is FALSE of the faithful model (C07_refuted): parse.function lists the documented
-   parameters first, in docstring order, then the undocumented ones in signature order, so
-   def f(a, b) documenting only b gives b, a.  What is proved:
-   - C07_names: the exact list of names of the result, for every set order, unbounded in the number of
-     parameters; each name once (C07_nodup); a permutation of Python's names whenever a ** parameter is
-     documented (C07_permutation); equal to Python's names in source order IFF the documented non-**
-     names are a prefix of the signature's and a ** parameter is documented (C07_order_exact);
+   proofs/MergeFacts.v, proofs/ParseSigFacts.v, proofs/C07Facts.v.  Model of /repo after fixes cc5b15e
+   (signature order), 14f8a19 (AST defaults first), e642f10 (get_value Not).
+   The full statement is still FALSE of the faithful model (C07_refuted): an undocumented ** parameter
+   is dropped (def f(a, **kwargs) parses to a).  What is proved:
+   - C07_names: the exact list of names of the result - the signature's positional and keyword-only
+     names in source order, then a documented ** parameter - for every set order, every docstring
+     (all / some / none documented, in any order), unbounded in the number of parameters; each name once
+     (C07_nodup); equal to Python's names in source order IFF an existing ** parameter is documented
+     (C07_order_exact); the only name that can be missing is an undocumented ** one (C07_missing_only_kwarg);
+     the old order witness now holds (C07_old_order_witness_holds);
    - C07_partial: inside the boolean guard (complement = the named finding classes of C07Spec) the
      whole property holds: names, order, prose attached, documented default/type win, signature
      defaults and annotations fill the gaps. *)
@@ -14,6 +16,7 @@ From Coq Require Import List Permutation.
 From Coq Require String.
 Import String.StringSyntax.
 From DT Require Import PyStr PyVal PyAst IR Merge ParseSig C12Spec C07Spec MergeFacts ParseSigFacts C07Facts.
+Import ListNotations.
 
 Theorem C07_refuted : ~ C07_statement.
 Proof. exact C07_refuted_lemma. Qed.
@@ -38,20 +41,31 @@ Theorem C07_order_exact : forall d fd, C07_domain d fd = true ->
 Proof. exact order_guard_iff. Qed.
 Print Assumptions C07_order_exact.
 
-Theorem C07_permutation : forall pi pj d fd it ww ft fnm r, C07_domain d fd = true ->
-  (match fd_arguments fd with
-   | Some a => match kwarg_name a with Some _ => kwarg_documented d a fd | None => true end
-   | None => false end) = true ->
-  parse_function pi pj d fd it ww ft fnm = Ok r -> Permutation (od_keys (ir_params r)) (sig_names fd).
-Proof. exact C07_permutation_lemma. Qed.
-Print Assumptions C07_permutation.
-
-(* class-free corollaries: whole input classes have the source order *)
+(* names and source order for every function, every docstring: only the ** parameter is conditional *)
 Theorem C07_names_in_source_order : forall pi pj d fd it ww ft fnm r, C07_domain d fd = true ->
   order_guard d fd = true ->
   parse_function pi pj d fd it ww ft fnm = Ok r -> od_keys (ir_params r) = sig_names fd.
 Proof. exact C07_names_lemma. Qed.
 Print Assumptions C07_names_in_source_order.
+
+Theorem C07_no_kwarg : forall pi pj d fd it ww ft fnm r a, C07_domain d fd = true ->
+  fd_arguments fd = Some a -> kwarg_name a = None ->
+  parse_function pi pj d fd it ww ft fnm = Ok r -> od_keys (ir_params r) = sig_names fd.
+Proof. exact C07_names_no_kwarg. Qed.
+Print Assumptions C07_no_kwarg.
+
+Theorem C07_kwarg_documented : forall pi pj d fd it ww ft fnm r a, C07_domain d fd = true ->
+  fd_arguments fd = Some a -> kwarg_documented d a fd = true ->
+  parse_function pi pj d fd it ww ft fnm = Ok r -> od_keys (ir_params r) = sig_names fd.
+Proof. exact C07_names_kwarg_documented. Qed.
+Print Assumptions C07_kwarg_documented.
+
+Theorem C07_missing_only_kwarg : forall pi pj d fd it ww ft fnm r a, C07_domain d fd = true ->
+  fd_arguments fd = Some a -> parse_function pi pj d fd it ww ft fnm = Ok r ->
+  od_keys (ir_params r) = sig_names fd
+  \/ (exists k, kwarg_name a = Some k /\ sig_names fd = od_keys (ir_params r) ++ [k]).
+Proof. exact C07Facts.C07_missing_only_kwarg. Qed.
+Print Assumptions C07_missing_only_kwarg.
 
 Theorem C07_undocumented : forall pi pj d fd it ww ft fnm r, C07_domain d fd = true ->
   doc_names d fd = nil -> (match fd_arguments fd with Some a => kwarg_name a = None | None => False end) ->
@@ -59,12 +73,11 @@ Theorem C07_undocumented : forall pi pj d fd it ww ft fnm r, C07_domain d fd = t
 Proof. exact C07_names_undocumented. Qed.
 Print Assumptions C07_undocumented.
 
-Theorem C07_all_documented_in_order : forall pi pj d fd it ww ft fnm r a, C07_domain d fd = true ->
-  fd_arguments fd = Some a -> doc_pos_names d a fd = sig_pos_names a ->
-  (match kwarg_name a with Some _ => kwarg_documented d a fd = true | None => True end) ->
-  parse_function pi pj d fd it ww ft fnm = Ok r -> od_keys (ir_params r) = sig_names fd.
-Proof. exact C07_names_all_in_order. Qed.
-Print Assumptions C07_all_documented_in_order.
+(* def f(a, b) documenting only b: refuted the statement before fix cc5b15e, inside the guard now *)
+Theorem C07_old_order_witness_holds : guard_C07 old_wit_doc old_wit_fd = true
+  /\ exists r, parse_default id_perm id_perm old_wit_doc old_wit_fd = Ok r /\ od_keys (ir_params r) = [L "a"; L "b"].
+Proof. exact old_witness_now_holds. Qed.
+Print Assumptions C07_old_order_witness_holds.
 
 (* what Python sees: positional and keyword-only names in source order, then the ** one *)
 Theorem C07_py_signature_names : forall n a b dc r, fd_facts a ->
@@ -72,20 +85,20 @@ Theorem C07_py_signature_names : forall n a b dc r, fd_facts a ->
 Proof. exact sig_names_spec. Qed.
 Print Assumptions C07_py_signature_names.
 
-(* a class merged with its __init__: the __init__ parameters keep their order when the class attributes
-   shared with it are, in class order, a prefix of them *)
-Theorem C07_class_order : forall tnames inames, NoDup inames ->
-  class_order_guard tnames inames = true -> init_names_in_merged tnames inames = inames.
-Proof. exact class_order_lemma. Qed.
-Print Assumptions C07_class_order.
-
+(* a class merged with its __init__: names of the merged interface; the __init__ parameters keep their
+   order when the class attributes shared with it are, in class order, a prefix of them *)
 Theorem C07_class_merge_names : forall pi pj t inner r, NoDup (od_keys (ir_params inner)) ->
   ir_merge pi pj t inner = Ok r ->
   od_keys (ir_params r) = class_merged_names (od_keys (ir_params t)) (od_keys (ir_params inner)).
 Proof. exact class_merge_names_lemma. Qed.
 Print Assumptions C07_class_merge_names.
 
-Example C07_witness_class : finding_class_C07 wit_doc wit_fd = Some K_doc_order.
+Theorem C07_class_order : forall tnames inames, NoDup inames ->
+  class_order_guard tnames inames = true -> init_names_in_merged tnames inames = inames.
+Proof. exact class_order_lemma. Qed.
+Print Assumptions C07_class_order.
+
+Example C07_witness_class : finding_class_C07 wit_doc wit_fd = Some K_kwargs_undocumented.
 Proof. exact wit_class. Qed.
 Print Assumptions C07_witness_class.
 
